@@ -275,7 +275,7 @@ def main():
     combos = [[h] for h in HOLE_LIB] + [[HOLE_LIB[0], HOLE_LIB[4]], [HOLE_LIB[5], HOLE_LIB[2]], [HOLE_LIB[3], HOLE_LIB[4]],
                                         [HOLE_LIB[0], HOLE_LIB[2]]]
     for nm, ring in hosts:
-        sel = combos if thorough else rng.sample(combos, 3)
+        sel = combos if thorough else rng.sample(combos[:len(HOLE_LIB)], 2) + [rng.choice(combos[len(HOLE_LIB):])]
         for hs in sel:
             n = len(ring)
             grid_case(nm, ring, rng.randrange(n), rng.random() < 0.5, closed=True, holes=hs)
@@ -432,7 +432,10 @@ def main():
                    'query on a boundary or level with a vertex.',
               assumptions=['IEEE double arithmetic of the implementation is exact on the integer/half-integer grids used (DESIGN section 3)',
                            'the even-odd interior of a simple ring is its topological interior (Jordan curve theorem for polygons), not proved',
-                           'rings do not span the antimeridian; all longitudes > -180'])
+                           'no edge spans more than 180 degrees of longitude (ensure_edge_bounds is the identity; shapes spanning the '
+                           'antimeridian are excluded by the property); longitudes are in [-180, 180) as Coordinate normalises them',
+                           'a GeoBox used as a hole removes the CLOSED box (faithful to the code; the clause "on a hole boundary => contained" '
+                           'is proved for polygon holes and refuted for box holes: C01_box_hole_boundary_refuted)'])
 
 
 def replay(path):
